@@ -46,7 +46,8 @@ class World:
                                                                             "client_credentials", "implicit",
                                                                             "urn:ietf:params:oauth:grant-type:device_code"],
                            ["code", "token"], "client_secret_basic"),
-            "c2": S.Client("c2", "s2", ["https://c2.example/cb"], "a", ["authorization_code", "refresh_token"],
+            "c2": S.Client("c2", "s2", ["https://c2.example/cb"], "a", ["authorization_code", "refresh_token",
+                                                                         "urn:ietf:params:oauth:grant-type:device_code"],
                            ["code"], "client_secret_basic"),
         }
         st.clients["pub"] = S.Client("pub", "", ["https://pub.example/cb"], "a b", ["implicit"], ["token"], "none")
